@@ -143,4 +143,23 @@ def beeSpec (c : CryptoOps) (es : List BeeEngine) : Nat → Nat → Bytes → By
 def beeSpecImage (c : CryptoOps) (es : List BeeEngine) (base : Nat) (img : Bytes) : Bytes :=
   beeSpec c es (blocksFor img.length) base img
 
+
+/-! ## BEE region header -/
+
+/-- a region header `BeeRegionHeader.export()` accepts, with FAC regions as the property quantifies over them -/
+structure BeeHdr.WF (h : BeeHdr) : Prop where
+  eng : h.engine.WF
+  nfac : 0 < h.engine.facs.length ∧ h.engine.facs.length ≤ 4
+  fac_end : ∀ f ∈ h.engine.facs, f.start + f.length ≤ 0xFFFFFFFF      -- `BeeFacRegion.validate`: end_addr <= 0xFFFFFFFF
+  levels : ∀ l ∈ h.levels, l ≤ 3
+  lock : h.lockOptions < 2 ^ 32
+  kib_key : h.kibKey.length = 16
+  kib_iv : h.kibIv.length = 16
+
+/-! ## OTFAD through SB2.1 -/
+
+/-- the whole (512-byte padded) load lies inside the key blob's window -/
+def Sb21.fits (kb : KeyBlob) (address len : Nat) : Prop :=
+  ∀ j, j < blocksFor len → kb.containsAddr (address + 16 * j) = true
+
 end SpsdkVerif.FlashEnc
